@@ -398,6 +398,39 @@ static void run(const vf::Args &args, Report &rep)
         }
         rep.cls("family:sparse_signed", n);
     }
+    // the same operations issued concurrently from several threads, each with its own operands: a pure function must not
+    // depend on state left behind by (or shared with) another caller
+    {
+        uint64_t n = args.getu("concurrent", args.thorough() ? 40000000ULL : 4000000ULL) / args.nshards;
+        struct Bad { bool set = false; const char *op = ""; uint64_t a = 0, b = 0, got = 0, exp = 0; };
+        const int T = 8;
+        Bad bad[T];
+        uint64_t seeds[T];
+        for (int t = 0; t < T; t++) seeds[t] = vf::mix64(args.seed, 0xC0C0 + args.shard * 131 + t);
+#pragma omp parallel num_threads(T)
+        {
+            int me = omp_get_thread_num();
+            Rng q(seeds[me % T]);
+            Bad &mine_bad = bad[me % T];
+            for (uint64_t t = 0; t < n / T; t++)
+            {
+                uint64_t a = g.pick(q), b = g.pick(q);
+                const El ea = mk(a), eb = mk(b);
+                struct { const char *op; uint64_t got, exp; } r[] = {
+                    {"add", Goldilocks::add(ea, eb).fe, orc::add(a, b)}, {"sub", Goldilocks::sub(ea, eb).fe, orc::sub(a, b)},
+                    {"mul", Goldilocks::mul(ea, eb).fe, orc::mul(a, b)}, {"mulScalar", Goldilocks::mulScalar(ea, b).fe, orc::mul(a, b)},
+                    {"square", Goldilocks::square(ea).fe, orc::mul(a, a)}, {"neg", Goldilocks::neg(ea).fe, orc::neg(a)},
+                    {"inc", Goldilocks::inc(ea).fe, orc::add(a, 1)}, {"dec", Goldilocks::dec(ea).fe, orc::sub(a, 1)}};
+                for (auto &x : r)
+                    if (orc::canon(x.got) != x.exp && !mine_bad.set) { mine_bad.set = true; mine_bad.op = x.op; mine_bad.a = a; mine_bad.b = b; mine_bad.got = x.got; mine_bad.exp = x.exp; }
+            }
+        }
+        for (int t = 0; t < T; t++)
+            if (bad[t].set)
+                rep.violation(std::string("C01:") + bad[t].op + ":concurrent-callers:wrong-value", J().str("op", bad[t].op).str("what", "8 threads calling the scalar operations at the same time, each on its own operands").h("a", bad[t].a).h("b", bad[t].b).h("got_raw", bad[t].got).h("expected", bad[t].exp).i("thread", t).done());
+        rep.evaluations += n / T * T;
+        rep.cls("family:concurrent_callers", n / T * T);
+    }
     // mixed generator filler (all of (a)-(e))
     {
         uint64_t n = args.getu("random", args.thorough() ? 20000000000ULL : 200000000ULL) / args.nshards;
@@ -475,6 +508,7 @@ static void check_refusal(Report &rep, const vf::Args &args)
     struct Case { const char *name; int kind; uint64_t a, b; } cases[] = {
         {"inv(0)", 0, 0, 0}, {"inv(p)", 0, PP, 0}, {"inv_ref(0)", 1, 0, 0}, {"inv_ref(p)", 1, PP, 0},
         {"div(5,0)", 2, 5, 0}, {"div(5,p)", 2, 5, PP}, {"div_ref(0,0)", 3, 0, 0}, {"div_ref(7,p)", 3, 7, PP}, {"op/(1,p)", 4, 1, PP}};
+    for (int warm = 0; warm < 2; warm++)
     for (auto &cs : cases)
     {
         rep.evaluations++;
@@ -487,6 +521,13 @@ static void check_refusal(Report &rep, const vf::Args &args)
             close(pfd[0]); close(efd[0]);
             dup2(efd[1], 2);
             El r = mk(0);
+            if (warm)
+            {
+                // the refusal must not depend on what was inverted before in this process / thread
+                volatile uint64_t sink = 0;
+                for (uint64_t k = 2; k < 40; k++) sink += Goldilocks::inv(mk(k * 0x9E3779B97F4A7C15ULL | 1)).fe + Goldilocks::div(mk(10), mk(k)).fe;
+                (void)sink;
+            }
             switch (cs.kind)
             {
             case 0: r = Goldilocks::inv(mk(cs.a)); break;
@@ -513,9 +554,9 @@ static void check_refusal(Report &rep, const vf::Args &args)
         bool nonzero = !(WIFEXITED(st) && WEXITSTATUS(st) == 0);
         bool diag = en > 0;
         if (returned || !nonzero || !diag)
-            rep.violation(std::string("C10:refusal:") + cs.name, J().str("case", cs.name).b("returned_a_value", returned).str("marker", buf).b("nonzero_exit", nonzero).b("diagnostic_on_stderr", diag).done());
-        rep.cls("refusal:cases");
-        rep.nontrivial(vf::mix64(cs.kind, cs.a ^ cs.b));
+            rep.violation(std::string("C10:refusal:") + cs.name + (warm ? ":after-successful-inversions" : ""), J().str("case", cs.name).b("after_successful_inversions_in_the_same_process", warm).b("returned_a_value", returned).str("marker", buf).b("nonzero_exit", nonzero).b("diagnostic_on_stderr", diag).done());
+        rep.cls(warm ? "refusal:cases_after_successful_inversions" : "refusal:cases");
+        rep.nontrivial(vf::mix64(cs.kind * 2 + warm, cs.a ^ cs.b));
         rep.sample("refusal", J().str("case", cs.name).b("nonzero_exit", nonzero).str("stderr", std::string(ebuf).substr(0, 60)).done());
     }
     (void)args;
